@@ -24,6 +24,7 @@ ASSUMPTIONS = ["exactness domain as in C02; result row order and column order ar
                "numeric values are compared as floats (pandas turns integer columns with missing "
                "values into floats), missing as NaN"]
 USE_CONTRACTS = True      # in-situ icontract monitors (vmon/contracts.py)
+SPLIT_KINDS = True         # thorough tier: one shard per geometry kind
 DECIDING_COUNTERS = ["joins_checked"]
 
 RIGHT_KINDS = ["polygon", "multipolygon", "line", "multiline", "point", "multipoint"]
